@@ -30,6 +30,7 @@ type dbgPlan struct {
 	BreakOnStart bool     `json:"break_on_start,omitempty"`
 	ResumeOnly   bool     `json:"resume_only,omitempty"`           // C15(c): static breakpoints, resume commands only, break-on-error off
 	StopAtRound  int      `json:"stop_threads_at_round,omitempty"` // C15: StopThreads() while the program runs / threads are suspended
+	StopAgain    bool     `json:"stop_again,omitempty"`            // ... and again for every thread that suspends after that
 	Lines        int      `json:"lines"`
 	// C16 only
 	Garbage bool `json:"garbage,omitempty"`
@@ -42,7 +43,20 @@ func init() {
 		New: func() interface{} { return &dbgPlan{} }, Run: func(p interface{}) { dbgRun(p.(*dbgPlan), "C16") }, Shrink: dbgShrink, Budget: 12_000_000})
 }
 
-var dbgBlockKinds = []string{"straight", "func", "nested", "loop", "tryerr", "sinks", "deep", "zoo", "chain", "errdata"}
+var dbgBlockKinds = []string{"straight", "func", "nested", "loop", "tryerr", "sinks", "deep", "zoo", "chain", "errdata", "lib"}
+
+// a second source, loaded before the debugger is attached; its name starts with the
+// name of the main source. Breakpoint lines >= dbgLibBase address this source.
+const dbgLibName = "c15lib"
+const dbgLibBase = 1000
+const dbgLibSrc = "func libf(x) {\n    let a := x + 1\n    let b := a * 2\n    return b\n}\n"
+
+func dbgBPTarget(line int) string {
+	if line >= dbgLibBase {
+		return fmt.Sprintf("%s:%d", dbgLibName, line-dbgLibBase)
+	}
+	return fmt.Sprintf("c15:%d", line)
+}
 
 func dbgGen(r *simrt.RNG, tier string, garbage bool) interface{} {
 	p := &dbgPlan{Workers: 1 + r.Intn(3), Garbage: garbage}
@@ -78,8 +92,15 @@ func dbgGen(r *simrt.RNG, tier string, garbage bool) interface{} {
 	// set / disable / remove hit the same line in every order
 	nl := 1 + r.Intn(4)
 	lines := make([]int, nl)
+	hasLib := false
+	for _, k := range p.Blocks {
+		hasLib = hasLib || k == "lib"
+	}
 	for i := range lines {
 		lines[i] = 1 + r.Intn(p.Lines)
+		if hasLib && r.Bool(0.4) {
+			lines[i] = dbgLibBase + 2 + r.Intn(3)
+		}
 	}
 	nb := r.Intn(7)
 	for i := 0; i < nb; i++ {
@@ -100,6 +121,7 @@ func dbgGen(r *simrt.RNG, tier string, garbage bool) interface{} {
 	p.BreakOnStart = !p.ResumeOnly && r.Bool(0.3)
 	if !garbage && !p.ResumeOnly && r.Bool(0.15) {
 		p.StopAtRound = 1 + r.Intn(6)
+		p.StopAgain = r.Bool(0.5)
 	}
 	return p
 }
@@ -127,6 +149,11 @@ func dbgShrink(pi interface{}) []interface{} {
 	if p.StopAtRound > 1 {
 		q := clone()
 		q.StopAtRound--
+		out = append(out, q)
+	}
+	if p.StopAgain {
+		q := clone()
+		q.StopAgain = false
 		out = append(out, q)
 	}
 	// dropping a block shifts line numbers: re-map is not attempted, breakpoints are kept as numbers
@@ -165,6 +192,8 @@ func dbgProgram(p *dbgPlan) (string, bool) {
 			fmt.Fprintf(&b, "v%d := %d + %d\nlog(\"v%d=\", v%d)\n", i, c, i, i, i)
 		case "func":
 			fmt.Fprintf(&b, "func f%d(a) {\n    let b := a + %d\n    log(\"f%d \", b)\n    return b\n}\nr%d := f%d(%d)\n", i, c, i, i, i, c+1)
+		case "lib":
+			fmt.Fprintf(&b, "lb%d := libf(%d) + libf(inc(%d))\nlog(\"lb%d=\", lb%d)\n", i, c, i, i, i)
 		case "nested":
 			fmt.Fprintf(&b, "n%d := inc(dbl(%d)) + dbl(inc(%d))\nlog(\"n%d=\", n%d)\n", i, c, c+1, i, i)
 		case "loop":
@@ -241,7 +270,11 @@ func (d *recDebugger) VisitState(node *parser.ASTNode, vs parser.Scope, tid uint
 	}
 	before := d.st.conts[tid]
 	idx := len(d.st.visits[tid])
-	d.st.visits[tid] = append(d.st.visits[tid], dbgVisit{line: node.Token.Lline})
+	line := node.Token.Lline
+	if node.Token.Lsource == dbgLibName {
+		line += dbgLibBase
+	}
+	d.st.visits[tid] = append(d.st.visits[tid], dbgVisit{line: line})
 	err := d.ECALDebugger.VisitState(node, vs, tid)
 	if d.st.conts[tid] != before {
 		d.st.visits[tid][idx].suspended = true
@@ -259,6 +292,9 @@ func dbgExec(p *dbgPlan, src string, withDebugger bool, prop string) dbgOutcome 
 	erp, logger := newProvider(p.Workers, nil)
 	vs := newGlobalScope()
 	var out dbgOutcome
+	if _, err := loadProgram(erp, dbgLibName, dbgLibSrc, vs); err != nil {
+		simrt.Fail("oracle:setup", "setup", "second source does not load: %v", err)
+	}
 	if !withDebugger {
 		res, err := loadProgram(erp, "c15", src, vs)
 		out.result = fmt.Sprintf("%v | %v", res, err)
@@ -276,10 +312,10 @@ func dbgExec(p *dbgPlan, src string, withDebugger bool, prop string) dbgOutcome 
 	}
 	applyBP := func(bp dbgBP) {
 		if bp.Op == "rmsource" {
-			dbgCmd(dbg, prop, "rmbreak c15")
+			dbgCmd(dbg, prop, "rmbreak "+strings.Split(dbgBPTarget(bp.Line), ":")[0])
 			return
 		}
-		dbgCmd(dbg, prop, fmt.Sprintf("%s c15:%d", bp.Op, bp.Line))
+		dbgCmd(dbg, prop, fmt.Sprintf("%s %s", bp.Op, dbgBPTarget(bp.Line)))
 	}
 	if prop == "C16" && p.Garbage {
 		// commands in the state "nothing executed yet"
@@ -344,6 +380,7 @@ func dbgExec(p *dbgPlan, src string, withDebugger bool, prop string) dbgOutcome 
 	round := 0
 	idleRounds := 0
 	stopped := false
+	lastStop := map[uint64]int{}
 	for !mainDone.get() && !mainTask.IsDone() {
 		round++
 		if p.StopAtRound > 0 && round >= p.StopAtRound && !stopped && len(dbgSuspended(dbg, prop)) > 0 {
@@ -359,6 +396,22 @@ func dbgExec(p *dbgPlan, src string, withDebugger bool, prop string) dbgOutcome 
 			}
 		}
 		suspended := dbgSuspended(dbg, prop)
+		if stopped && p.StopAgain && len(suspended) > 0 {
+			// threads that suspend again after the stop (an error on the line they were
+			// on) are stopped again - as a reload of the debug console does - and every one of
+			// them must be released by that
+			for _, tid := range suspended {
+				if last, ok := lastStop[tid]; ok && last == st.progress[tid] {
+					simrt.Fail("oracle:stop-threads", "stop-did-not-release",
+						"thread %d is still reported as suspended at the same place after StopThreads was called while it was suspended", tid)
+				}
+				lastStop[tid] = st.progress[tid]
+			}
+			simrt.Count("fault_stop_threads_again")
+			dbg.StopThreads(0)
+			simrt.Yield()
+			continue
+		}
 		for _, tid := range suspended {
 			cmd := "resume"
 			if !p.ResumeOnly {
@@ -461,7 +514,12 @@ func dbgExec(p *dbgPlan, src string, withDebugger bool, prop string) dbgOutcome 
 			case "rmbreak":
 				delete(active, bp.Line)
 			case "rmsource":
-				active = map[int]bool{}
+				// all breakpoints of that source, and only those
+				for l := range active {
+					if (l >= dbgLibBase) == (bp.Line >= dbgLibBase) {
+						delete(active, l)
+					}
+				}
 			}
 		}
 		var tids []uint64
